@@ -147,7 +147,7 @@ func init() {
 
 type c20step struct{ op, h, rnd int }
 
-var c20opNames = []string{"New(prefix,{memory})", "New(prefix,{cpu,memory,pids})", "h.New(child)", "h.Random(r*)", "h.Nest(n)", "OpenExisting(prefix)", "AddProc(helper)", "SetMemoryLimit", "SetProcLimit", "SetCPUBandwidth", "Destroy"}
+var c20opNames = []string{"New(prefix,{memory})", "New(prefix,{cpu,memory,pids})", "h.New(child)", "h.Random(r*)", "h.Nest(n)", "OpenExisting(prefix)", "AddProc(helper)", "SetMemoryLimit", "SetProcLimit", "SetCPUBandwidth", "Destroy", "h.New(planted) [sub-group pre-existing under the memory hierarchy only]"}
 
 // c20sequenceChoices makes the choices of one operation sequence; ok=false: the sequence is not well formed
 func c20sequenceChoices(x *mc.X, maxOps int) (steps []c20step, ok bool) {
@@ -165,7 +165,7 @@ func c20sequenceChoices(x *mc.X, maxOps int) (steps []c20step, ok bool) {
 		if op == 3 {
 			s.rnd = x.Choose(2, "random-value")
 		}
-		if op <= 5 {
+		if op <= 5 || op == 11 {
 			nh++
 		}
 		steps = append(steps, s)
@@ -174,7 +174,7 @@ func c20sequenceChoices(x *mc.X, maxOps int) (steps []c20step, ok bool) {
 }
 
 func c20sequence(x *mc.X, maxOps int) {
-	opNames := []string{"New(prefix,{memory})", "New(prefix,{cpu,memory,pids})", "h.New(child)", "h.Random(r*)", "h.Nest(n)", "OpenExisting(prefix)", "AddProc(helper)", "SetMemoryLimit", "SetProcLimit", "SetCPUBandwidth", "Destroy"}
+	opNames := []string{"New(prefix,{memory})", "New(prefix,{cpu,memory,pids})", "h.New(child)", "h.Random(r*)", "h.Nest(n)", "OpenExisting(prefix)", "AddProc(helper)", "SetMemoryLimit", "SetProcLimit", "SetCPUBandwidth", "Destroy", "h.New(planted) [sub-group pre-existing under the memory hierarchy only]"}
 	steps, ok := c20sequenceChoices(x, maxOps)
 	if !ok {
 		x.Outcome("n/a:no-handle-yet")
@@ -277,6 +277,18 @@ func c20sequence(x *mc.X, maxOps int) {
 			if err == nil && cg != nil && !reflect.ValueOf(cg).IsNil() && !cg.Existing() {
 				x.Failf("C20/seq/openexisting-not-existing", "%s: OpenExisting returned a handle with Existing()==false", ctx(i))
 			}
+		case 11:
+			parent := handles[s.h]
+			if parent.dead {
+				handles = append(handles, &c20handle{dead: true})
+				continue
+			}
+			// somebody else's sub-group exists under one hierarchy only
+			planted := filepath.Join("/sys/fs/cgroup", map[bool]string{true: "", false: "memory"}[c20v2], parent.rel, "planted")
+			os.MkdirAll(planted, 0755)
+			before = snapshot()
+			cg, err := parent.cg.New("planted")
+			add(i, cg, parent.rel+"/planted", before, err)
 		case 2, 3, 4:
 			parent := handles[s.h]
 			if parent.dead {
